@@ -541,13 +541,10 @@ class WFSA:
         # when multiple characters emanating from the same state share a byte prefix.
         byte_wfsa = self.spawn(keep_init=True, keep_stop=True)
 
-        state_counter = 0
-
-        def get_new_state():
-            nonlocal state_counter
-            state = f"_bytes{state_counter}"
-            state_counter += 1
-            return state
+        def chain_state(i, a, j, k):
+            # named after the arc it expands, so that chain states stay distinct when
+            # several converted automata are merged into one machine or grammar
+            return ("_bytes", i, a, j, k)
 
         for i, a, j, w in self.arcs():
             if a == EPSILON:
@@ -557,10 +554,10 @@ class WFSA:
                 if len(bs) == 1:
                     byte_wfsa.add_arc(i, bs[0], j, w)
                 else:  # Multi-byte transition
-                    curr = get_new_state()
+                    curr = chain_state(i, a, j, 0)
                     byte_wfsa.add_arc(i, bs[0], curr, self.R.one)
-                    for b in bs[1:-1]:
-                        next_state = get_new_state()
+                    for k, b in enumerate(bs[1:-1]):
+                        next_state = chain_state(i, a, j, k + 1)
                         byte_wfsa.add_arc(curr, b, next_state, self.R.one)
                         curr = next_state
                     byte_wfsa.add_arc(curr, bs[-1], j, w)
